@@ -999,6 +999,9 @@ func scenC04(g *Gen, dir string) ([]*Op, func(e *Env, i int, op *Op, obs []strin
 	if r.Chance(1, 10) || (subset && r.Chance(1, 2)) {
 		mode = 22 // two objects exchange their IDs
 	}
+	if r.Chance(1, 12) {
+		mode = 23 // a second live descriptor under a signed object's ID
+	}
 	if forge {
 		mode = 5 + r.Intn(2) // a data bit of an object
 	}
@@ -1171,6 +1174,50 @@ func fillPatch(g *Gen, op *Op, b []byte) {
 		tabEnd = len(b)
 	}
 	switch {
+	case mode == 23: // a second in-use descriptor under a signed object's ID, in front of the genuine one
+		// the genuine descriptor is copied into a free slot further down the table; the original slot
+		// is then pointed at another object's bytes: two live descriptors carry the ID, the first
+		// one with content nobody signed under that ID (another writer's numbering can do this; the
+		// library's own never does)
+		ts := parseTable(b, total)
+		var objs []tableSlot
+		free := -1
+		for _, t := range ts {
+			if t.used && !t.sig && t.size > 0 {
+				objs = append(objs, t)
+			}
+			if !t.used {
+				free = t.o
+			}
+		}
+		if len(objs) < 2 || free < 0 || len(b) < 128 {
+			op.Sites = []PatchSite{flip(r.Intn(128))}
+			break
+		}
+		a := r.Intn(len(objs))
+		c := (a + 1 + r.Intn(len(objs)-1)) % len(objs)
+		x, y := objs[a], objs[c]
+		if free < x.o {
+			op.Sites = []PatchSite{flip(r.Intn(128))}
+			break
+		}
+		put64 := func(v int64) []byte {
+			o := make([]byte, 8)
+			for k := 0; k < 8; k++ {
+				o[k] = byte(v >> (8 * k))
+			}
+			return o
+		}
+		var dfree int64
+		for k := 7; k >= 0; k-- {
+			dfree = dfree<<8 | int64(b[80+k])
+		}
+		op.Sites = []PatchSite{
+			{Off: int64(free), B: append([]byte{}, b[x.o:x.o+585]...)},
+			{Off: int64(x.o + 17), B: append(put64(y.off), put64(y.size)...)},
+			{Off: 80, B: put64(dfree - 1)}}
+		op.N = 1
+		g.count("tamper:second-descriptor-under-a-signed-id")
 	case mode == 22: // the ID fields of two in-use non-signature descriptors exchanged (positions relative to the groups change)
 		ts := parseTable(b, total)
 		var objs []tableSlot
